@@ -113,6 +113,9 @@ type Analyzer struct {
 	// OpaquePure: pure repo helpers that are not inlined; their result is kept as helper(arg0) with the
 	// declared length (>= 0: constant; -2: the second argument; -1: unknown).
 	OpaquePure map[string]int64
+	// AtomicCells: model sync/atomic typed integers (Load/Store/Add/Swap) as plain memory cells. Sound for the value
+	// sequence seen by the one goroutine that advances the cell; not for values other goroutines may interleave.
+	AtomicCells bool
 	// pooledObj: objects that come from / go back to a sync.Pool; bufBytes: slices handed out by (*bytes.Buffer).Bytes per buffer object
 	pooledObj map[int]bool
 	bufBytes  map[int][]*Base
